@@ -152,6 +152,47 @@ func (e *Engine) Yield() {
 	}
 }
 
+// schedPick chooses the next thread at a point where the current one cannot continue
+// (blocked, finished, quiescing). Bound sched_first=1: the lowest-numbered runnable thread
+// is taken and the other orders are not explored (stated as outside the claim).
+func (e *Engine) schedPick(opts []int) int {
+	if e.cfg.Bounds["sched_first"] != 0 {
+		return opts[0]
+	}
+	return e.chooseAmong(opts)
+}
+
+// advanceIdle: every thread is blocked. With a pinned concrete clock, time jumps to the
+// earliest pending timer (what the runtime does for sleeping goroutines and what a synctest
+// bubble does for the native replay); reports whether the clock moved.
+func (e *Engine) advanceIdle() bool {
+	if !e.clockPinned || e.now == nil {
+		return false
+	}
+	now := e.subst(e.now)
+	if !now.IsConst() {
+		return false
+	}
+	best := int64(-1)
+	for _, c := range e.timers {
+		if !c.Timer || c.Next == nil || !c.Next.IsConst() {
+			continue
+		}
+		n := sext64(c.Next.C, 64)
+		if n <= sext64(now.C, 64) || n >= int64(1)<<62 {
+			continue
+		}
+		if best < 0 || n < best {
+			best = n
+		}
+	}
+	if best < 0 {
+		return false
+	}
+	e.now = e.tb.Const(64, uint64(best))
+	return true
+}
+
 // Block parks the current thread until cond holds. Deadlock (no runnable thread)
 // ends the path with a deadlock event.
 func (e *Engine) Block(cond func() bool, what string) {
@@ -165,11 +206,15 @@ func (e *Engine) Block(cond func() bool, what string) {
 				opts = append(opts, t.id)
 			}
 		}
+		if len(opts) == 0 && e.advanceIdle() {
+			me.blocked = nil
+			continue
+		}
 		if len(opts) == 0 {
 			me.blocked = nil
 			panic(pathEnd{"deadlock", fmt.Sprintf("thread %d (%s) blocked forever on %s; no runnable thread", me.id, me.name, what)})
 		}
-		c := e.chooseAmong(opts)
+		c := e.schedPick(opts)
 		if DebugForks {
 			fmt.Printf("ESCHED[%d] block(%s) cur=%d -> %d\n", len(e.sched), what, me.id, c)
 		}
@@ -195,7 +240,7 @@ func (e *Engine) Quiesce() int {
 		if len(opts) == 0 {
 			break
 		}
-		c := e.chooseAmong(opts)
+		c := e.schedPick(opts)
 		if DebugForks {
 			fmt.Printf("ESCHED[%d] quiesce cur=%d -> %d\n", len(e.sched), me.id, c)
 		}
@@ -262,6 +307,9 @@ func (e *Engine) threadExit(t *Thread) {
 		return
 	}
 	rs := e.runnableThreads()
+	for len(rs) == 0 && !e.threads[0].done && e.advanceIdle() {
+		rs = e.runnableThreads()
+	}
 	if len(rs) == 0 {
 		// everything else is blocked: wake main so it can report (main must be blocked)
 		main := e.threads[0]
@@ -284,7 +332,7 @@ func (e *Engine) threadExit(t *Thread) {
 				c = -1
 			}
 		}()
-		c = e.chooseAmong(opts)
+		c = e.schedPick(opts)
 	}()
 	if c < 0 {
 		return
